@@ -13,7 +13,7 @@ EXPLANATION = (
     "constrain() follows. R06c every parameter-set interpolate() in model.py is multiplied by both calibration factors. R06d execution order is a topological sort "
     "with edges dependency -> dependent; the dynamic list is an order-preserving filter; post-compute pairs update() with constrain(). R06e the three "
     "implementations of the function-suspension window agree on all five order regions, and a parameter scenario partitions the time axis with one threshold. "
-    "Interpolated values and numeric clipping are not decided."
+    "R06f: the program set is forwarded through the recursive dynamic-flag propagation, so a function parameter whose (indirect) dependency is overwritten by a program is re-evaluated every step. Interpolated values and numeric clipping are not decided."
 )
 
 
@@ -24,6 +24,7 @@ def run(ctx):
     ctx.each(r06c, ctx, repo)
     ctx.each(r06d, ctx, repo)
     ctx.each(r06e, ctx, repo)
+    ctx.each(r06f, ctx, repo)
 
 
 def _ids(cfg, stmts):
@@ -138,6 +139,15 @@ def r06b(ctx, repo):
     for v in V:
         val = ast.unparse(v.value)
         ctx.check(".interpolate(" in val and "%s.scale_factor" % pv in _mult_factors(v.value), "R06b", fi, v, "stored value = interpolate(...) * scale_factor", "databook values are stored as `%s`: not the interpolated series times the calibration scale factor" % val)
+    # the function takes precedence over databook values whenever one is defined and can be precomputed; the suspension window of a
+    # parameter scenario is applied *inside* Parameter.update (R06e), so the choice of branch must not depend on it
+    for u in U:
+        conj = [ast.unparse(c_) for t_, pol in guards_of(u, stop=l) if pol for c_ in R.split_conjuncts(t_)]
+        extra = [c_ for c_ in conj if c_ not in ("%s.fcn_str" % pv, "%s._precompute" % pv, "%s.fcn_str is not None" % pv)]
+        ctx.check(("%s._precompute" % pv) in conj and not extra, "R06b", fi, u, "precomputable functions are always evaluated at build time", "the build-time function evaluation is additionally conditional on `%s`: where that fails the databook/scenario series is used for *all* times, including those outside the suspension window, so a scenario changes values before its first overwrite year" % " and ".join(extra or ["?"]))
+    for v in V:
+        gs = [(ast.unparse(t_), pol) for t_, pol in guards_of(v, stop=l)]
+        ctx.check(any((not pol) and "_precompute" in t_ for t_, pol in gs), "R06b", fi, v, "databook values are used only when there is no precomputable function", "databook values can overwrite a precomputed function value")
     if not Dd:
         ctx.fail("R06b", fi, l, "initial parameter values are never constrained to the framework limits", stmt_text="build-constrain-missing")
     else:
@@ -347,3 +357,25 @@ def scenario_partition(ctx, repo, rule):
     # pin uses the default interpolation onto the baseline mask and stores both t and vals from the same mask
     st = [s for s in own_nodes(gp.node) if isinstance(s, ast.Assign) and ast.unparse(s.targets[0]).endswith(".t") and "tvec[" in ast.unparse(s.value)]
     ctx.check(bool(st), rule, gp, st[0] if st else gp.node, "baseline time points stored from the same mask", "baseline time points are not stored from the `tvec < S` mask")
+
+
+def r06f(ctx, repo):
+    ctx.rule("R06f", "dynamic-flag propagation: every recursive set_dynamic() call made by Parameter.set_dynamic forwards `progset`, the decision uses `dep._is_dynamic or dep.name in progset.pars`, and the builders pass the model's program set")
+    sd = repo.func("model", "Parameter.set_dynamic")
+    ctx.require("progset" in sd.params, "R06f: Parameter.set_dynamic lost its progset parameter")
+    calls = [c for c in own_nodes(sd.node) if isinstance(c, ast.Call) and isinstance(c.func, ast.Attribute) and c.func.attr == "set_dynamic"]
+    ctx.require(calls, "R06f: no recursive set_dynamic() call in Parameter.set_dynamic")
+    for c in calls:
+        passed = any(k.arg == "progset" and astq.is_name(k.value, "progset") for k in c.keywords) or (c.args and astq.is_name(c.args[0], "progset"))
+        # a call on something that is definitely not a Parameter (guarded by isinstance Compartment/Characteristic only) needs nothing
+        gs = [ast.unparse(t) for t, pol in guards_of(c) if pol]
+        only_nonpar = any("isinstance(" in g and "Parameter" not in g and ("Compartment" in g or "Characteristic" in g) for g in gs)
+        ctx.check(passed or only_nonpar, "R06f", sd, enclosing_stmt(c), "recursive call forwards progset", "`%s` does not forward `progset`: a parameter reached only through this call cannot see that one of *its* dependencies is overwritten by a program, is precomputed once, and keeps its stale value while programs change the dependency" % ast.unparse(c))
+    txt = " ".join(ast.unparse(x) for x in own_nodes(sd.node) if isinstance(x, (ast.BoolOp, ast.Compare)))
+    ctx.check("in progset.pars" in txt and "_is_dynamic" in txt, "R06f", sd, sd.node, "a dependency overwritten by programs makes the dependent dynamic", "Parameter.set_dynamic no longer treats a dependency that is overwritten by programs as dynamic")
+    pb = repo.func("model", "Population.build")
+    pc = [c for c in own_nodes(pb.node) if isinstance(c, ast.Call) and isinstance(c.func, ast.Attribute) and c.func.attr == "set_dynamic"]
+    ctx.check(bool(pc) and all((c.args and astq.is_name(c.args[0], "progset")) or any(k.arg == "progset" for k in c.keywords) for c in pc), "R06f", pb, enclosing_stmt(pc[0]) if pc else pb.node, "Population.build passes the program set", "Population.build calls set_dynamic() without the program set")
+    so = repo.func("model", "Model._set_exec_order")
+    keep = [s_ for s_ in own_nodes(so.node) if isinstance(s_, ast.If) and "_is_dynamic" in ast.unparse(s_.test)]
+    ctx.check(bool(keep) and any("progset.pars" in ast.unparse(k.test) for k in keep), "R06f", so, keep[0] if keep else so.node, "program-targeted parameters are kept in the per-step update list", "parameters targeted by programs are no longer kept in dynamic_pars: the program overwrite and constrain are skipped for them")
